@@ -258,13 +258,28 @@ func (c *Ctx) summaries(rule string) *core.Summaries {
 					continue
 				}
 				n++
-				if mv.Kind != core.MStore {
-					ok = false
-					continue
+				// the window at a return is one store, or a merge of stores (if / else arms): each is proved where it was made
+				var exact func(mv *core.MemVal, at ssa.Instruction, depth int) bool
+				exact = func(mv *core.MemVal, at ssa.Instruction, depth int) bool {
+					switch {
+					case mv == nil || depth > 4:
+						return false
+					case mv.Kind == core.MStore:
+						st, so := l.Expr(size)
+						lt := l.LenOf(mv.Val)
+						return l.Prove(at, lt, st, so) && l.Prove(at, st, lt, -so)
+					case mv.Kind == core.MPhi && mv.Block != nil && len(mv.Edges) == len(mv.Block.Preds):
+						for i, e := range mv.Edges {
+							pb := mv.Block.Preds[i]
+							if len(pb.Instrs) == 0 || !exact(e, pb.Instrs[len(pb.Instrs)-1], depth+1) {
+								return false
+							}
+						}
+						return len(mv.Edges) > 0
+					}
+					return false
 				}
-				st, so := l.Expr(size)
-				lt := l.LenOf(mv.Val)
-				if !(l.Prove(ret, lt, st, so) && l.Prove(ret, st, lt, -so)) {
+				if !exact(mv, ret, 0) {
 					ok = false
 				}
 			}
@@ -506,7 +521,14 @@ func (c *Ctx) slotAssertions(rule string) {
 		for _, b := range fn.Blocks {
 			for _, in := range b.Instrs {
 				ta, ok := in.(*ssa.TypeAssert)
-				if !ok || ta.CommaOk {
+				if !ok {
+					continue
+				}
+				if ta.CommaOk {
+					// the two-result form cannot panic; a context slot read this way still counts as an inspected site
+					if call, isCall := ta.X.(*ssa.Call); isCall && call.Call.IsInvoke() && call.Call.Method.Name() == "Value" && isCtxType(call.Call.Value.Type()) {
+						n++
+					}
 					continue
 				}
 				n++
